@@ -35,7 +35,8 @@ def event_expr(entry, lv="l"):
 
 
 def fin_expr(fin):
-    return {"Msg": '.Msg("m")', "Msgf": '.Msgf("%s", "m")', "MsgFunc": ".MsgFunc(msgFn)", "Send": ".Send()"}[fin]
+    return {"Msg": '.Msg("m")', "MsgEmpty": '.Msg("")', "Msgf": '.Msgf("%s", "m")', "Msgf0": '.Msgf("m")', "MsgfPct": '.Msgf("100%%")',
+            "MsgFunc": ".MsgFunc(msgFn)", "Send": ".Send()"}[fin]
 
 
 def statement(c):
@@ -45,6 +46,12 @@ def statement(c):
         return 'l.Print("m")'
     if e == "Printf":
         return 'l.Printf("%s", "m")'
+    if e == "Print0":
+        return "l.Print()"
+    if e == "Printf0":
+        return 'l.Printf("m")'
+    if e == "log.Printf0":
+        return 'zlog.Printf("m")'
     if e == "Println":
         return 'l.Println("m")'
     if e == "Write":
@@ -133,7 +140,7 @@ def check(pid, tier, seed, replay=None):
         samples = [json.loads(x) for x in lines[1:4]]
         cov = {"states": max(2, r.distinct), "transitions": max(1, r.generated), "traces_validated_against_impl": len(lines) - 1, "samples": samples,
                "combinations": len(combos), "exhaustive": True,
-               "exhaustive_scope": "mechanism {Event.Caller, Event.Caller(k), Context.Caller, CallerWithSkipFrameCount(2+k), Event.CallerSkipFrame(k), global CallerSkipFrameCount} x 20 entry points x 4 finalizers x other hooks {none, before, after} x wrapper depth 0..3",
+               "exhaustive_scope": "mechanism {Event.Caller, Event.Caller(k), Context.Caller, CallerWithSkipFrameCount(2+k), Event.CallerSkipFrame(k), global CallerSkipFrameCount} x 23 entry points (incl. Print(), Printf(const), log.Printf(const)) x 7 finalizers (incl. Msg(\"\"), Msgf(const), Msgf(\"100%%\")) x other hooks {none, before, after} x wrapper depth 0..3",
                "checker_cmd": "tlc Caller.tla (SkipArithmetic + combinations); tlc CallerTrace.tla"}
         write_evidence(pid, tier, seed, "model_checking", cov, time.time() - t0, len(v.violations),
                        assumptions=["runtime.Caller(0) on the generated line is the reference for 'the user's statement'", "not covered: the pre-go1.12 constant"])
